@@ -631,22 +631,20 @@ impl<'a> UserModel<'a> {
     /// See also:
     /// * [Model::delete_sheet]
     pub fn delete_sheet(&mut self, sheet: u32) -> Result<(), String> {
-        let worksheet = self.model.workbook.worksheet(sheet)?;
-
-        self.push_diff_list(vec![Diff::DeleteSheet {
-            sheet,
-            old_data: Box::new(worksheet.clone()),
-        }]);
-
+        let old_data = Box::new(self.model.workbook.worksheet(sheet)?.clone());
         let sheet_count = self.model.workbook.worksheets.len() as u32;
+
+        // This fails if it is the only sheet: nothing must have been recorded or changed by then
+        self.model.delete_sheet(sheet)?;
+
+        self.push_diff_list(vec![Diff::DeleteSheet { sheet, old_data }]);
+
         // If we are deleting the last sheet we need to change the selected sheet
         if sheet == sheet_count - 1 && sheet_count > 1 {
             if let Some(view) = self.model.workbook.views.get_mut(&self.model.view_id) {
                 view.sheet = sheet_count - 2;
             };
         }
-
-        self.model.delete_sheet(sheet)?;
         Ok(())
     }
 
